@@ -128,10 +128,12 @@ func vhC40RemoveDuringCall() {
 		f := &c40YieldFake{c40Fake{id: i, pending: vChoose("pending", 3), calls: &calls}}
 		cc.Clients = append(cc.Clients, f)
 	}
+	cc.once.Do(cc.init) // the balancer has been used before (RemoveClients acts on the initialised list)
 	removeFrom := vChoose("removeFrom", n) // clients with id ≥ removeFrom go away
 	done := make(chan struct{}, 2)
 	var err error
 	go func() {
+		vYield() // the removal may also come first
 		var req Request
 		var resp Response
 		err = cc.DoDeadline(&req, &resp, time.Time{})
